@@ -826,7 +826,7 @@ theorem step_pslice (t : Ty) (i : Nat) (v : Val) (done : List Val) (hwf : (Ty.ps
   simp only [Ty.wf] at hwf
   intro rd put hrd fuel rest off hf
   rw [renderRec_elem t i v hwf.1 hi hty] at hsz hf ⊢
-  have := pslice_loop t hwf.1 hs hwf.2.1 hwf.2.2 ((pp_ty t hwf.1).1 hs) i hi rd put hrd [v] done fuel rest off
+  have := pslice_loop t hwf.1 hs hwf.2.1 hwf.2.2.1 ((pp_ty t hwf.1).1 hs) i hi rd put hrd [v] done fuel rest off
     (fun x hx => by simp only [List.mem_singleton] at hx; subst hx; exact hty)
     (by simpa using hsz) (by simpa using hf)
   simpa using this
